@@ -374,7 +374,12 @@ Definition kern (kind : Z) : point -> point -> Z :=
 (* register: kernel kind, sketch, ghost log of all inputs, ghost flag "some compaction happened in the history",
    ghost count of inputs that came in through a merge source with num_retained = 0 (the sources that the code
    before the repair "is_empty() <=> n_ == 0" skipped; only used by the oracle to name that failure) *)
-Record full := { f_kind : Z; f_ds : ds; f_log : list point; f_comp : bool; f_lost : Z }.
+Record full := { f_kind : Z; f_ds : ds; f_log : list point; f_cnt : Z; f_comp : bool; f_lost : Z }.
+(* ghost: f_cnt is the number of inputs (updates + merged sketches), an unbounded integer; f_log lists them only while
+   there are at most [log_cap] (a history that merges copies of itself reaches 2^40 inputs); beyond that the log is
+   dropped and f_comp is set, which switches off the exact-mean predicate, the only user of the log *)
+Definition log_cap : Z := 4096.
+Definition cap_log (cnt : Z) (l : list point) : list point := if log_cap <? cnt then [] else l.
 
 Definition mk_env (e : line) : env := {| e_toks := e; e_short := false |}.
 Definition env_ok (e : env) : bool := negb (e_short e) && match e_toks e with [] => true | _ => false end.
@@ -409,7 +414,7 @@ Definition decode_into (s : list (Z * full)) (r2 kind path : Z) (b : list Z) : l
       let R := [1; used; d_k w; d_dim w; d_ret w; d_n w; bz (1 <? Z.of_nat (length (d_levels w)))] ++
                concat (map (fun pw => snd pw :: fst pw) (ds_iterate w)) in
       match of_wire w with
-      | Some d => (reg_set s r2 {| f_kind := kind; f_ds := d; f_log := concat (d_levels d); f_comp := true; f_lost := 0 |}, (R, []))
+      | Some d => (reg_set s r2 {| f_kind := kind; f_ds := d; f_log := []; f_cnt := d_n d; f_comp := true; f_lost := 0 |}, (R, []))
       | None => (reg_del s r2, (R, []))
       end
   end.
@@ -421,7 +426,7 @@ Definition step (s : list (Z * full)) (o el : line) : list (Z * full) * outline 
   match o with
   | 1 :: r :: k :: dim :: kind :: _ =>               (* new sketch; check_k *)
       noenv (if k <? 2 then (s, (refused, []))
-             else (reg_set s r {| f_kind := kind; f_ds := ds_new k dim; f_log := []; f_comp := false; f_lost := 0 |},
+             else (reg_set s r {| f_kind := kind; f_ds := ds_new k dim; f_log := []; f_cnt := 0; f_comp := false; f_lost := 0 |},
                    (ok, [])))
   | 2 :: r :: p =>                                    (* update *)
       match reg_get s r with
@@ -429,8 +434,8 @@ Definition step (s : list (Z * full)) (o el : line) : list (Z * full) * outline 
           match ds_update (kern (f_kind f)) (f_ds f) p e with
           | Some (d', e') =>
               if env_ok e' then
-                (reg_set s r {| f_kind := f_kind f; f_ds := d'; f_log := f_log f ++ [p];
-                                f_comp := f_comp f || will_compact (f_ds f); f_lost := f_lost f |}, (ok, []))
+                (reg_set s r {| f_kind := f_kind f; f_ds := d'; f_log := cap_log (f_cnt f + 1) (f_log f ++ [p]); f_cnt := f_cnt f + 1;
+                                f_comp := f_comp f || will_compact (f_ds f) || (log_cap <? f_cnt f + 1); f_lost := f_lost f |}, (ok, []))
               else (s, ([-3], []))
           | None => noenv (s, (refused, []))
           end
@@ -448,9 +453,10 @@ Definition step (s : list (Z * full)) (o el : line) : list (Z * full) * outline 
                 let merged := {| d_k := d_k (f_ds f); d_dim := d_dim (f_ds f); d_ret := d_ret (f_ds f) + d_ret (f_ds g);
                                  d_n := d_n (f_ds f) + d_n (f_ds g);
                                  d_levels := zip_app (d_levels (f_ds f)) (d_levels (f_ds g)) |} in
-                (reg_set s r {| f_kind := f_kind f; f_ds := d'; f_log := f_log f ++ f_log g;
-                                f_comp := f_comp f || f_comp g || (negb ign && will_compact merged);
-                                f_lost := f_lost f + (if zr then Z.of_nat (length (f_log g)) else f_lost g) |},
+                (reg_set s r {| f_kind := f_kind f; f_ds := d'; f_log := if log_cap <? f_cnt f + f_cnt g then [] else f_log f ++ f_log g;
+                                f_cnt := f_cnt f + f_cnt g;
+                                f_comp := f_comp f || f_comp g || (negb ign && will_compact merged) || (log_cap <? f_cnt f + f_cnt g);
+                                f_lost := f_lost f + (if zr then f_cnt g else f_lost g) |},
                  (ok, []))
               else (s, ([-3], []))
           | None => noenv (s, (refused, []))
@@ -462,7 +468,7 @@ Definition step (s : list (Z * full)) (o el : line) : list (Z * full) * outline 
       | Some f =>
           let d := f_ds f in
           (s, ([d_n d; d_ret d; bz (1 <? Z.of_nat (length (d_levels d))); bz (d_n d =? 0); d_k d; d_dim d],
-               [Z.of_nat (length (f_log f)); f_lost f; bz (f_comp f); Z.of_nat (length (d_levels d))]))
+               [f_cnt f; f_lost f; bz (f_comp f); Z.of_nat (length (d_levels d))]))
       | None => (s, (refused, []))
       end
   | 5 :: r :: q =>                                    (* estimate; S: num, den, abs num, terms, exact num, exact den, compacted *)
@@ -471,7 +477,7 @@ Definition step (s : list (Z * full)) (o el : line) : list (Z * full) * outline 
           let d := f_ds f in
           let kd := f_kind f in
           let spec := [est_num (kern kd) d q; d_n d * scale; est_num (abs_kern kd) d q; d_ret d;
-                       level_sum (kern kd) q 1 (f_log f); Z.of_nat (length (f_log f)) * scale; bz (f_comp f);
+                       level_sum (kern kd) q 1 (f_log f); f_cnt f * scale; bz (f_comp f);
                        d_dim d] in
           match ds_estimate (kern kd) d q with
           | Some _ => (s, (ok, spec))
@@ -491,7 +497,7 @@ Definition step (s : list (Z * full)) (o el : line) : list (Z * full) * outline 
       | Some f =>
           let d := ds_roundtrip (f_ds f) in
           let fresh := d_n (f_ds f) =? 0 in
-          (reg_set s r2 {| f_kind := f_kind f; f_ds := d; f_log := if fresh then [] else f_log f;
+          (reg_set s r2 {| f_kind := f_kind f; f_ds := d; f_log := if fresh then [] else f_log f; f_cnt := if fresh then 0 else f_cnt f;
                            f_comp := if fresh then false else f_comp f; f_lost := if fresh then 0 else f_lost f |},
            (ok, []))
       | None => (s, (refused, []))
